@@ -49,6 +49,7 @@ def run_temp_path(w, path, x, st=None):
             try:
                 r = q.convert(w.units[nxt])
                 ea = q.equiv_amount(w.units[nxt])
+                qu = q / w.units[nxt]       # operator form of equiv_amount
             except Exception as exc:
                 out.append(('C14:temp:raises', f"({q!r}).convert({nxt}): "
                             f"{type(exc).__name__}: {exc}"))
@@ -59,9 +60,11 @@ def run_temp_path(w, path, x, st=None):
             if type(r) is not cls or r.unit is not w.units[nxt] or \
                     isinstance(r.amount, float) or \
                     not O.is_exact(r.amount) or O.fr(r.amount) != want or \
-                    ea is None or O.fr(ea) != want:
+                    ea is None or O.fr(ea) != want or \
+                    isinstance(qu, float) or O.fr(qu) != want:
                 out.append((f'C14:temp:value:{q.unit.symbol}->{nxt}',
-                            f"({q!r}).convert({nxt}) = {r!r}, physics says "
+                            f"({q!r}).convert({nxt}) = {r!r}, equiv_amount "
+                            f"{ea!r}, quantity / unit {qu!r}; physics says "
                             f"{want}"))
                 break
             q = r
@@ -211,6 +214,20 @@ def run_table(p, amts):
                         st.violation(f'C14:table:{kind}',
                                      f"{case}: got {r!r}, expected {want}",
                                      case)
+                        continue
+                    # the operator form quantity / unit is the same
+                    # conversion
+                    try:
+                        qu = q / us[b]
+                        okq = not isinstance(qu, float) and \
+                            O.fr(qu) == want
+                    except Exception as exc:
+                        qu, okq = exc, False
+                    st.evaluations += 1
+                    if not okq:
+                        st.violation('C14:table:qty-by-unit',
+                                     f"{case}: ({q!r}) / {b} = {qu!r}, "
+                                     f"expected {want}", case)
                         continue
                     # round trip: identical amount when the way back uses
                     # the same row
